@@ -162,7 +162,7 @@ def getMountSources (m : Mounts) (mnt : MountType) : Res (List Bytes) :=
 def mountSourceIsExpected (m : Mounts) (mnt : MountType) (test : Bytes) : Res Bool :=
   (getMountSources m mnt).map (·.contains test)
 
-/-! ### GetMountAndSubmounts (after fix 05db66c): along the mount tree when a mount is covered -/
+/-! ### GetMountAndSubmounts (after fix e546b99): along the mount tree when a mount is covered -/
 
 /-- `MountType.covers`: `a` and `b` hang below the same mount and `b`'s mountpoint lies below
     `a`'s; then `a` was mounted after `b`, over the directory that holds `b`'s mountpoint -/
